@@ -57,12 +57,13 @@ func tAnyRows() []any {
 			rows = append(rows, r)
 		}
 	}
-	for _, v := range []any{int64(0), int64(-1), int64(math.MaxInt64), int64(math.MinInt64)} {
+	// (incl. a typed nil pointer: the interface is not nil then, the value is)
+	for _, v := range []any{int64(0), int64(-1), int64(math.MaxInt64), int64(math.MinInt64), (*int64)(nil)} {
 		v := v
 		add(func(r *TAny) { r.A = v })
 	}
 	add(func(r *TAny) { r.A = nil })
-	for _, v := range []any{"", "a", strings.Repeat("s", 70), nil} {
+	for _, v := range []any{"", "a", strings.Repeat("s", 70), nil, []byte("bytes"), []byte{}, (*string)(nil)} {
 		v := v
 		add(func(r *TAny) { r.S = v })
 	}
@@ -71,7 +72,7 @@ func tAnyRows() []any {
 		v := v
 		add(func(r *TAny) { r.G = v })
 	}
-	for _, v := range []any{nil, []any{}, []any{int64(0)}, []any{int64(1), int64(2), int64(3)}, []int64{4, 5}, []int64{}, []int64(nil)} {
+	for _, v := range []any{nil, []any{}, []any{int64(0)}, []any{int64(1), int64(2), int64(3)}, []int64{4, 5}, []int64{}, []int64(nil), [2]int64{8, 9}} {
 		v := v
 		add(func(r *TAny) { r.L = v })
 	}
